@@ -40,6 +40,41 @@ type stubLedger struct {
 	store    map[string][]byte // bucket + "\x00" + key
 	failByHt bool              // QueryBlockByHeight fails
 	failSnap bool              // CreateSnapshot fails
+	// versioned: the contract storage is the list of writes below, each made by
+	// the trunk block of a height; a snapshot of a block shows the writes of the
+	// blocks up to its height (xpoa.setchange)
+	versioned bool
+	writes    []verWrite
+}
+
+type verWrite struct {
+	block int64
+	key   string // bucket + "\x00" + key
+	value []byte
+}
+
+// valueAt is the value of a key in the state after the block of height h.
+func (l *stubLedger) valueAt(h int64, key string) ([]byte, bool) {
+	var v []byte
+	found := false
+	for _, w := range l.writes {
+		if w.block <= h && w.key == key {
+			v, found = w.value, true
+		}
+	}
+	return v, found
+}
+
+// snapHeight: which state a reader shows (-1: the single shared map).
+func (l *stubLedger) snapHeight(blkId []byte) (int64, bool) {
+	if !l.versioned {
+		return -1, true
+	}
+	b, ok := l.byID[string(blkId)]
+	if !ok {
+		return 0, false
+	}
+	return b.Height, true
 }
 
 func newStubLedger(conf []byte) *stubLedger {
@@ -72,10 +107,16 @@ func (l *stubLedger) GetTipBlock() ledger.BlockHandle {
 	return state.NewBlockAgent(l.chain[len(l.chain)-1])
 }
 
-type stubReader struct{ l *stubLedger }
+type stubReader struct {
+	l *stubLedger
+	h int64 // versioned ledgers: the height of the block the snapshot is of
+}
 
 func (r stubReader) Get(bucket string, key []byte) (*ledger.VersionedData, error) {
 	v, ok := r.l.store[bucket+"\x00"+string(key)]
+	if r.l.versioned {
+		v, ok = r.l.valueAt(r.h, bucket+"\x00"+string(key))
+	}
 	if !ok {
 		return nil, nil
 	}
@@ -89,6 +130,10 @@ func (r stubReader) Select(bucket string, startKey []byte, endKey []byte) (ledge
 type stubTipReader struct{ l *stubLedger }
 
 func (r stubTipReader) Get(bucket string, key []byte) ([]byte, error) {
+	if r.l.versioned {
+		v, _ := r.l.valueAt(int64(len(r.l.chain)-1), bucket+"\x00"+string(key))
+		return v, nil
+	}
 	return r.l.store[bucket+"\x00"+string(key)], nil
 }
 
@@ -100,10 +145,16 @@ func (l *stubLedger) CreateSnapshot(blkId []byte) (ledger.XMReader, error) {
 	if l.failSnap {
 		return nil, errStub
 	}
-	return stubReader{l}, nil
+	h, ok := l.snapHeight(blkId)
+	if !ok {
+		return nil, errStub
+	}
+	return stubReader{l, h}, nil
 }
 
-func (l *stubLedger) GetTipSnapshot() (ledger.XMReader, error) { return stubReader{l}, nil }
+func (l *stubLedger) GetTipSnapshot() (ledger.XMReader, error) {
+	return stubReader{l, int64(len(l.chain) - 1)}, nil
+}
 
 // ------------------------------------------------- stub network and contracts
 
@@ -153,16 +204,23 @@ func (m *stubManager) GetKernRegistry() contract.KernRegistry { return m.r }
 
 // newCtx builds the consensus context of node `self` over a stub ledger.
 func newCtx(l *stubLedger, self string) cctx.ConsensusCtx {
+	c, _ := newCtxReg(l, self)
+	return c
+}
+
+// newCtxReg also hands out the kernel-method registry the constructor registers with.
+func newCtxReg(l *stubLedger, self string) (cctx.ConsensusCtx, *stubRegistry) {
 	k := world.Keys[self]
+	reg := &stubRegistry{m: map[string]contract.KernMethod{}}
 	return cctx.ConsensusCtx{
 		BaseCtx:  xcontext.BaseCtx{XLog: world.NopLogger{}},
 		BcName:   "xuper",
 		Address:  &cctx.Address{Address: k.Address, PrivateKey: k.Priv, PrivateKeyStr: k.PriJSON, PublicKey: &k.Priv.PublicKey, PublicKeyStr: k.PubJSON},
 		Crypto:   world.Crypto,
-		Contract: &stubManager{r: &stubRegistry{m: map[string]contract.KernMethod{}}},
+		Contract: &stubManager{r: reg},
 		Ledger:   l,
 		Network:  &stubNet{account: k.Address},
-	}
+	}, reg
 }
 
 // genesisConf renders what Ledger.GetConsensusConf returns: {"name":..,"config":"<json>"}.
@@ -315,7 +373,8 @@ func run(tier core.Tier) *core.Report {
 	for _, part := range []struct {
 		name string
 		run  func(*core.Report, core.Tier, map[string]bool) int
-	}{{"tdpos", runTdpos}, {"xpoa", runXpoa}, {"single", runSingle}, {"pow.compact", runCompact}, {"pow.isproofed", runIsProofed}, {"pow.chain", runPowChains}, {"pow.history", runPowHistory}} {
+	}{{"tdpos", runTdpos}, {"xpoa", runXpoa}, {"single", runSingle}, {"pow.compact", runCompact}, {"pow.isproofed", runIsProofed}, {"pow.chain", runPowChains}, {"pow.history", runPowHistory},
+		{"xpoa.setchange", runXpoaSetChange}, {"pow.fork", runPowFork}} {
 		t0 := time.Now()
 		n := part.run(rep, tier, distinct)
 		evals += n
@@ -326,13 +385,16 @@ func run(tier core.Tier) *core.Report {
 	rep.Set("distinct_nontrivial", len(distinct))
 	rep.Set("rule", "cases are enumerated as the full cross product of the listed finite domains in index order "+
 		"(TDPoS/XPoA: configuration box x every millisecond x every candidate proposer x ledger mode; single: proposer x signature x key; "+
-		"PoW: exponent x mantissa, target x hash, stub chain x candidate block, and call history x candidate block: rightful chain across two retarget heights x tip height at which the instance is constructed x "+
+		"XPoA set change: (period, block_num) x (old, new) validator-set pair of equal or different size, the new one written by the real editValidates kernel method in a block of a stub chain with per-block snapshots x verifying node with the old / the new set as its own mining set x candidate height before / at / after the activation height x every millisecond x every member of both sets + outsider + empty; "+
+		"PoW: exponent x mantissa, target x hash, stub chain x candidate block, fork scenario (trunk and side branch with other timestamps, fork height inside / at / below the retarget window start) x trunk tip x candidate on branch / trunk with bits of its own history, of the other history and of mixtures of both x hash class, and call history x candidate block: rightful chain across two retarget heights x tip height at which the instance is constructed x "+
 		"every fixed-length sequence over {ProcessBeforeMiner, CheckMinerMatch on all candidates that extend the tip or compete with it, confirm the next rightful block}, each verdict judged by the reference formula and against the baseline history of an instance that is up since genesis and has just started a mining round). A case is non-trivial when the oracle had something to decide: "+
-		"distinct (part, schedule cell kind or candidate class, [pow.history: position of the candidate relative to the tip, and whether the instance last prepared (start-up / ProcessBeforeMiner) for this height or for another one with the same / an easier / a harder target,] accepted/rejected) combinations are counted, so a run in which "+
+		"distinct (part, schedule cell kind or candidate class, [xpoa.setchange: relation and sizes of the two sets, node, side of the activation height; pow.fork: parent chain, position of the fork relative to the retarget window, which history the bits come from, hash class, trunk tip;] [pow.history: position of the candidate relative to the tip, and whether the instance last prepared (start-up / ProcessBeforeMiner) for this height or for another one with the same / an easier / a harder target,] accepted/rejected) combinations are counted, so a run in which "+
 		"everything is rejected or everything accepted yields a small number")
 	rep.Assume("stub LedgerRely serves a linear chain of real BlockAgents and one contract-storage map for every snapshot; the real ledger is not involved")
 	rep.Assume("TDPoS/XPoA are run without bft_config: the chained-BFT justify check of CheckMinerMatch (property C14) is not exercised here")
 	rep.Assume("TDPoS validator set is the configured initial set (resolved by height on a young chain, through the term / snapshot lookups on a grown chain with no vote records); elected sets are not enumerated. XPoA: the initial set and one set edited through the contract record (reverse order)")
+	rep.Assume("xpoa.setchange: the set in force for a block of height r is what the snapshot of the trunk block r-4 records (initial set while r <= 4 or nothing is recorded): a write of block c is in force from height c+4 on, as the comments of xpoa/schedule.go state (change takes effect three blocks after the block that contains it); poa mode (no bft_config); the node's own mining set is only changed by the constructor (CompeteMaster, which sleeps on the wall clock, is not called)")
+	rep.Assume("pow.fork: side-branch blocks are served by QueryBlock (by id) only, trunk blocks by id and by height; ProcessConfirmBlock is called for trunk blocks only")
 	rep.Assume("a block's height is what the block claims (the header hash does not cover it and Ledger.ConfirmBlock overwrites it after CheckMinerMatch); the reference takes the true height = parent height + 1. Claimed heights are enumerated for PoW (true, 1) and XPoA (true, 2), not for TDPoS")
 	rep.Assume("TDPoS: before the configured init time no term exists, so nobody is entitled there; XPoA has no origin, for timestamps outside the enumerated rounds (negative, extreme) the code's own schedule triple is taken as naming the entitled validator and only accept-implies-entitled, at most one producer and no panic are judged")
 	rep.Assume("PoW covers the Bitcoin-style mode (defaultTarget > 256); the legacy leading-zero-bits mode is not enumerated")
@@ -370,6 +432,10 @@ func replay(c json.RawMessage) (bool, string, error) {
 		o, err = replayPowChain(c)
 	case "pow.history":
 		o, err = replayPowHistory(c)
+	case "xpoa.setchange":
+		o, err = replayXpoaSetChange(c)
+	case "pow.fork":
+		o, err = replayPowFork(c)
 	default:
 		return false, "", fmt.Errorf("unknown part %q", h.Part)
 	}
